@@ -65,12 +65,24 @@ def write_all_helpers(tree):
         if len(loops) != 1 or loops[0].orelse or body[-1] is not loops[0]:
             continue
         W = loops[0]
+        cursor = _cursor_form(f, P, B, body, W, empty_test)
+        if cursor is not None:
+            out.add(f.name)
+            if cursor == 'bytes':
+                BYTE_HELPERS.add(f.name)
+            elif cursor == 'ndarray':
+                NDARRAY_BYTE_HELPERS.add(f.name)
+            continue
         forever = isinstance(W.test, ast.Constant) and W.test.value is True
         if not (forever or nonempty_test(W.test, B)):
             continue
         ok = True
+        nd_view = False
         for x in body[:body.index(W)]:
             if isinstance(x, ast.Assign) and unparse(x.targets[0]) == B and unparse(x.value) in (f'memoryview({B})', f"memoryview({B}).cast('B')"):
+                continue
+            if _nd_to_bytes(x, B):
+                nd_view = True
                 continue
             if isinstance(x, ast.If) and not x.orelse and empty_test(x.test, B) and len(x.body) == 1 and isinstance(x.body[0], ast.Return) and x.body[0].value is None:
                 continue
@@ -106,11 +118,92 @@ def write_all_helpers(tree):
         out.add(f.name)
         if any(isinstance(x, ast.Assign) and unparse(x.targets[0]) == B and unparse(x.value) == f"memoryview({B}).cast('B')" for x in body):
             BYTE_HELPERS.add(f.name)
+        elif nd_view:
+            NDARRAY_BYTE_HELPERS.add(f.name)
     return out
+
+
+NDARRAY_BYTE_HELPERS = set()
+
+
+def _nd_to_bytes(x, B):
+    """`if isinstance(B, np.ndarray): B = B.view(np.uint8)` -- an array argument is counted and sliced in bytes."""
+    return isinstance(x, ast.If) and not x.orelse and unparse(x.test) in (f'isinstance({B}, np.ndarray)', f'isinstance({B}, numpy.ndarray)') and len(x.body) == 1 \
+        and isinstance(x.body[0], ast.Assign) and unparse(x.body[0].targets[0]) == B and unparse(x.body[0].value) in tuple(f'{B}.view({t})' for t in _ONE_BYTE)
+
+
+def _cursor_form(f, P, B, body, W, empty_test):
+    """The same loop with an integer cursor instead of re-slicing the view:
+
+        V = memoryview(B)[.cast('B')];  T = len(V);  S = 0
+        while S < T:  n = P.write(V[S:]);  [ifs that only raise];  S += n
+
+    Returns 'bytes' (the helper casts), 'ndarray' (array arguments viewed as bytes first), 'items' (recognised, item units), or None."""
+    pre = body[:body.index(W)]
+    V = T = S = None
+    casts, nd = False, False
+    for x in pre:
+        if _nd_to_bytes(x, B):
+            nd = True
+            continue
+        if isinstance(x, ast.Assign) and len(x.targets) == 1 and isinstance(x.targets[0], ast.Name):
+            t, v = x.targets[0].id, unparse(x.value)
+            if v in (f'memoryview({B})', f"memoryview({B}).cast('B')") and V is None:
+                V, casts = t, v.endswith(".cast('B')")
+                continue
+            if V is not None and v in (f'len({V})', f'{V}.nbytes') and T is None:
+                T = t
+                continue
+            if v == '0' and S is None:
+                S = t
+                continue
+        return None
+    if V is None or S is None:
+        return None
+    tt = unparse(W.test).replace(' ', '')
+    bound = T if T is not None else f'len({V})'
+    if tt not in (f'{S}<{bound}', f'{S}!={bound}', f'{bound}>{S}'):
+        return None
+    wr = [x for x in W.body if isinstance(x, ast.Assign) and isinstance(x.targets[0], ast.Name) and unparse(x.value) == f'{P}.write({V}[{S}:])']
+    if len(wr) != 1:
+        return None
+    nv = wr[0].targets[0].id
+    adv = [x for x in W.body if isinstance(x, ast.AugAssign) and isinstance(x.op, ast.Add) and unparse(x.target) == S and unparse(x.value) == nv]
+    if len(adv) != 1 or W.body.index(adv[0]) < W.body.index(wr[0]):
+        return None
+    for m in W.body:
+        if m is wr[0] or m is adv[0]:
+            continue
+        if isinstance(m, ast.If) and not m.orelse and all(isinstance(y, ast.Raise) for y in m.body):
+            continue
+        return None
+    if sum(1 for x in ast.walk(f) if isinstance(x, ast.Call) and isinstance(x.func, ast.Attribute) and x.func.attr == 'write') != 1:
+        return None
+    stores = [x.id for x in ast.walk(f) if isinstance(x, ast.Name) and isinstance(x.ctx, ast.Store)]
+    if sorted(stores) != sorted([V, S, nv, S] + ([T] if T else []) + ([B] if nd else [])):
+        return None
+    return 'bytes' if casts else ('ndarray' if nd else 'items')
 
 
 BYTE_HELPERS = set()
 _ONE_BYTE = ('np.uint8', 'np.ubyte', "'u1'", "'B'", 'np.int8', 'np.byte', "'i1'", "'b'", "'|u1'", "'S1'", 'np.bool_')
+
+
+def _certainly_ndarray(e, defs, depth=0):
+    """The value is a numpy array (so a helper that views arrays as uint8 counts it in bytes): a numpy constructor / converter, or a
+    shape-only method of one."""
+    if depth > 8:
+        return False
+    if isinstance(e, ast.Name):
+        vs = defs.get(e.id)
+        return bool(vs) and all(v is not None and _certainly_ndarray(v, defs, depth + 1) for v in vs)
+    if isinstance(e, ast.Call):
+        d = dotted(e.func)
+        if d in ('np.ascontiguousarray', 'np.asarray', 'np.array', 'np.empty', 'np.zeros', 'np.require', 'np.ravel', 'np.reshape', 'np.frombuffer'):
+            return True
+        if isinstance(e.func, ast.Attribute) and e.func.attr in ('reshape', 'ravel', 'flatten', 'view', 'copy', 'squeeze', 'astype'):
+            return _certainly_ndarray(e.func.value, defs, depth + 1)
+    return False
 
 
 def byte_itemed(e, defs, depth=0):
@@ -268,6 +361,7 @@ def run(chk):
     body = fn.body
     WRITE_HELPERS.clear()
     BYTE_HELPERS.clear()
+    NDARRAY_BYTE_HELPERS.clear()
     WRITE_HELPERS.update(write_all_helpers(src.tree(PA)))
     # module-level functions that are handed the pipe but are not recognised as complete-write loops: their calls are still the writes of
     # the stream (for the framing rules), and the completeness rule R6 names them
@@ -365,7 +459,7 @@ def run(chk):
             if hn in BYTE_HELPERS:
                 continue
         d = wdata(n)
-        okb_ = byte_itemed(d, fdefs)
+        okb_ = byte_itemed(d, fdefs) or (hn in NDARRAY_BYTE_HELPERS and _certainly_ndarray(d, fdefs))
         chk.check(okb_, 'C20-R6', PA, Q, 'the complete-write loop advances in bytes: the buffer it slices has one-byte items', unparse(d)[:60],
                   f'{hn}(pipe, {unparse(d)[:70]}): the helper drops `n` ITEMS of its memoryview after the stream took `n` BYTES; with items wider than one byte '
                   'a short write (raw stdout under python -u, any stream doing partial writes) skips (itemsize-1)*n payload bytes: fewer bytes than count x width, '
